@@ -111,6 +111,10 @@ pub fn handle(name: &str, a: &[&str]) -> String {
             let expect = b.to_str(&qr);
             match b.to_file(&qr, &path) {
                 Ok(()) => {
+                    if path.starts_with("/dev/") {
+                        // a device swallows the bytes: Ok here means a failed write was reported as success
+                        return "OK same=false (device)".to_string();
+                    }
                     let got = std::fs::read(&path).unwrap_or_default();
                     format!("OK same={}", got == expect.as_bytes())
                 }
